@@ -49,6 +49,16 @@ def run_patch(patch, props, tier="quick", seed=None, keep_evidence=False):
             viol = [l for l in lines if l.startswith("VIOLATION")]
             keys = [l.strip() for l in lines if l.strip().startswith("class=")]
             out["props"][prop] = {"rc": r.returncode, "violations": len(viol), "first": keys[:2], "wall_s": round(time.time() - t0, 1)}
+            if viol and os.environ.get("EON_VERIF_MUTANT_REPLAY", "1") == "1":
+                # the replay file must reproduce the violation on the mutated tree in a fresh
+                # process, and must NOT reproduce it on the unchanged tree
+                path = viol[0].split("replay=")[1].strip()
+                rm = subprocess.run([sys.executable, here, prop, "--replay", path], stdout=subprocess.PIPE, stderr=subprocess.PIPE, env=env)
+                env2 = dict(env)
+                env2["EON_VERIF_REPO"] = repo
+                rc = subprocess.run([sys.executable, here, prop, "--replay", path], stdout=subprocess.PIPE, stderr=subprocess.PIPE, env=env2)
+                out["props"][prop]["replay_on_mutant_rc"] = rm.returncode
+                out["props"][prop]["replay_on_clean_rc"] = rc.returncode
             if r.returncode == 2:
                 out["props"][prop]["stderr"] = r.stderr.decode()[-400:]
                 out["props"][prop]["stdout"] = r.stdout.decode()[-600:]
@@ -91,7 +101,8 @@ def main(argv):
         r["killed_by"] = killed
         results.append(r)
         print("%-55s %s  %s" % (f, "KILLED by " + ",".join(killed) if killed else "SURVIVED",
-                                {p: v["rc"] for p, v in r["props"].items()} if not r.get("error") else r["error"]), flush=True)
+                                {p: (v["rc"], "replay mutant/clean", v.get("replay_on_mutant_rc"), v.get("replay_on_clean_rc"))
+                                 for p, v in r["props"].items()} if not r.get("error") else r["error"]), flush=True)
     if not only:
         with open(os.path.join(eonsim.VERIF, "evidence", "mutants.json"), "w") as fh:
             json.dump({"tier": tier, "mutants": results, "killed": sum(1 for r in results if r["killed_by"]), "total": len(results)}, fh, indent=1)
